@@ -106,6 +106,19 @@ CLAIMS.update({
     ),
 })
 
+CLAIMS.update({
+    "C06": dict(
+        technique="type-level facts from the type-checked program (deep type walk for cells, field types, unsafe census) + MIR who-may-mutate census (F1) + compile_fail witnesses",
+        text="Decides that querying never modifies the framework (every static solver/helper/encoder reaches it through `&AAFramework<T>`, the store types "
+        "reach no cell/atomic/trait object, no unsafe; witness W1: mutating the framework while a solver borrows it does not compile), that static "
+        "solvers are stateless across queries (no field write outside constructors, no stored SAT solver, every solver object of a query comes from "
+        "the factory call of that query) - hence order/repetition independence -, that the only stateful encoder re-initialises all its cells "
+        "before any use in each encoding, and that back ends are reached only through the SatSolver trait, with assumptions never persisting. "
+        "NOT decided: equality of statuses across encodings, back ends and the certificate flag (value clauses), dynamic solvers (C08).",
+        ref="4/C06",
+    ),
+})
+
 NOT_APPLICABLE = {
     "C19": "Merged arguments being indistinguishable under complete semantics is a semantic fact about a propagation algorithm over all graphs; "
     "no structural necessary condition of value remains for a static rule (DESIGN.md section 4/C19).",
